@@ -14,7 +14,7 @@ def items(tier):
     ents = corpus.entries(tier)
     for idx, (p, strat, tags) in enumerate(ents):
         a = alpha_for(p)
-        for L in range(0, maxL + 1):
+        for L in corpus.lengths(tags, tier, maxL):
             out.append(mk("C04", p, "FindAllIndex", L, a, n=99, strategy=strat))
         # the other enumeration APIs at L=2: all of them for every third pattern (rotating) in quick, for all in thorough
         apis = APIS2 + (APIS_T if tier != "quick" else [])
